@@ -78,6 +78,19 @@ def leaf(F, ident):
     return ident
 
 
+def _passes_inner_error(fn, b):
+    """The error payload of the Some(Err(e)) built in block b is, unmodified, the error the inner iterator's next()
+    returned (value provenance, not the shape of the match)."""
+    from qv import origins
+    for i, st in enumerate(fn.blocks[b]['stmts']):
+        if st['k'] == 'assign' and st['lhs']['l'] == 0 and not st['lhs']['p'] and st['rv']['k'] == 'agg' and st['rv']['def'].endswith('Option::Some') and st['rv']['ops'] and is_place(st['rv']['ops'][0]):
+            o = st['rv']['ops'][0]
+            leaves = origins._from_operand(fn, b, i, o, [('down', 'Err'), ('f', 0)], set(), 0)
+            if leaves and all(l[0] == 'call' and callee_name(l[2]).endswith('Iterator>::next') and [x for x in l[3] if x[0] == 'down'][-1:] == [('down', 'Err')] for l in leaves):
+                return True
+    return False
+
+
 def check(R, F):
     # ---- (a) latch
     nx = F.fn('<zone_file::Parser<S> as std::iter::Iterator>::next')
@@ -97,7 +110,7 @@ def check(R, F):
     ro = F.fn('<zone_file::RecordsOnly<S> as std::iter::Iterator>::next')
     for b in some_err_blocks(ro):
         g = paths.dom_guards(ro, b)
-        if any(re.search(r'@Some\.0\) in \[1\]$|discr\(.*next\(.*\)@Some\.0\) in \[1\]', x) for x in g) and not any('content' in x for x in g):
+        if _passes_inner_error(ro, b):
             continue   # passing an inner error through: the inner parser has latched already
         sets = [bb for bb, bl in enumerate(ro.blocks) if not bl['cleanup'] for st in bl['stmts'] if st['k'] == 'assign' and st['lhs']['p'] and isinstance(st['lhs']['p'][-1], dict) and st['lhs']['p'][-1].get('n') == 'error' and const_name(st['rv'].get('op', {'k': 'const', 'val': ''})) == 'true']
         R.require(any(ro.dominates(s, b) for s in sets), 'latch', ro.gpath + '|include-latches', ro.where(b), 'the $INCLUDE error sets the inner flag', 'RecordsOnly::next returns its own error without latching')
